@@ -5,11 +5,11 @@
    value followed by anything is accepted, except that a number is read as far as it goes, so what follows a number
    must not continue it), totality (no panic, no internal error code, every error positioned inside the text).
    Len() of a document (C12_len), proper nesting of the lexeme stream (C12_nested) and containment of every span
-   (C12_spans) are theorems as well.  That literal lexemes cover exactly the literal's bytes and that the rebuilt tree
-   equals an independent decoder's is covered by the correspondence
-   (model = implementation on all short token strings) plus the independent decoder used as oracle. *)
+   (C12_spans) are theorems as well, and so is that literal and key lexemes cover exactly the literal's bytes
+   (C12_literal_spans).  That the tree rebuilt from the stream equals an independent decoder's is covered by the
+   correspondence (model = implementation on all short token strings) plus the independent decoder used as oracle. *)
 From Coq Require Import List ZArith NArith Bool.
-From JS Require Import Base.Res Base.Lex Spec.JsonGrammar Model.JsonScan Proofs.JsonClasses Proofs.JsonSound Proofs.JsonMain Proofs.JsonComplete Proofs.JsonLen Proofs.JsonStream.
+From JS Require Import Base.Res Base.Lex Spec.JsonGrammar Model.JsonScan Proofs.JsonClasses Proofs.JsonSound Proofs.JsonMain Proofs.JsonComplete Proofs.JsonLen Proofs.JsonStream Proofs.JsonLiteral.
 Import ListNotations.
 Local Open Scope Z_scope.
 
@@ -85,6 +85,24 @@ Theorem C12_spans : forall s i, all_bytes s -> jcheck false s = (Ok tt, i) ->
                Forall (fun x : lexeme => (0 <= snd (fst x) <= snd x /\ snd x < Z.of_nat (length s))%Z) ls.
 Proof. exact accepted_spans. Qed.
 Print Assumptions C12_spans.
+
+(* ... and every literal lexeme covers exactly the literal's bytes: the slice of the text from the lexeme's begin to its
+   end (inclusive) is a JSON scalar - string, number, true/false/null by the RFC 8259 grammar - and the slice of a key
+   lexeme is a JSON string; nothing of the neighbourhood (blanks, the comma or bracket that ended a number) belongs to it *)
+Theorem C12_literal_spans : forall s i, all_bytes s -> jcheck false s = (Ok tt, i) ->
+  exists ls j, jlexemes false s = (Ok ls, j) /\
+    Forall (fun x : lexeme => match ltype x with
+                              | LiteralEnd => JScalar (slice s (snd (fst x)) (snd x + 1)%Z)
+                              | ObjectKeyEnd => JString (slice s (snd (fst x)) (snd x + 1)%Z)
+                              | _ => True
+                              end) ls.
+Proof. exact accepted_literals. Qed.
+Print Assumptions C12_literal_spans.
+Example C12_literal_spans_example :
+  let s := [123; 34; 107; 34; 58; 32; 91; 45; 49; 46; 53; 101; 51; 44; 32; 34; 97; 92; 110; 34; 44; 32; 110; 117; 108; 108; 93; 125]%N in
+  map (fun x : lexeme => (snd (fst x), snd x)) (filter (fun x => is_close (ltype x)) (match fst (jlexemes false s) with Ok ls => ls | _ => [] end))
+  = [(1, 3); (7, 12); (15, 19); (22, 25)]%Z.
+Proof. exact literal_spans_example. Qed.
 
 (* non-vacuity: concrete texts on both sides *)
 Example C12_accepts :
